@@ -421,6 +421,23 @@ public:
             }
         }
 
+        // The one LL_VERSION_IND of the connection while both the application's request and the central's LL_VERSION_IND
+        // wait for it: it serves both (which of the two the link layer looked at first can not be seen from outside)
+        if ( !r.empty() && r[ 0 ] == LL_VERSION_IND && peripheral_version_inds == 1 && local_version_pending() )
+        {
+            for ( std::size_t k = 0; k < fifo.size(); ++k )
+            {
+                if ( fifo[ k ].cls.compare( 0, 13, "version_first" ) == 0 )
+                {
+                    fifo.erase( fifo.begin() + static_cast< std::ptrdiff_t >( k ) );
+                    for ( std::size_t f = 0; f < floating.size(); ++f )
+                        if ( floating[ f ].cls == "local_version_ind" ) { floating.erase( floating.begin() + static_cast< std::ptrdiff_t >( f ) ); break; }
+                    mon.cls( "answered:version_first" );
+                    return;
+                }
+            }
+        }
+
         // second half of an encryption start that nobody asked for in this connection
         if ( cfg.security && !r.empty() )
         {
@@ -661,6 +678,7 @@ public:
     unsigned                burst_before_end;   // event producing PDUs in the connection event that ended the connection
     unsigned                closed_reason;
     std::string             seq;                // callbacks of the current connection
+    bool                    pending_instant_traffic = false;   // PDUs reached the link layer while a PDU with an instant waited (C21 territory)
 
     void truth_connect_ind()
     {
@@ -672,6 +690,7 @@ public:
         allowed_reasons.clear();
         cause = "";
         burst_before_end = 0;
+        pending_instant_traffic = false;
     }
 
     void truth_first_event()
@@ -785,7 +804,7 @@ public:
                         std::snprintf( b, sizeof b, "ll_connection_closed(reason=0x%02x) but the cause (%s) allows { %s}", closed_reason, cause.c_str(), al.c_str() );
                         const char* got = closed_reason == 0x08 ? "got_08" : closed_reason == 0x16 ? "got_16" : closed_reason == 0x22 ? "got_22"
                                         : closed_reason == 0x28 ? "got_28" : closed_reason == 0x13 ? "got_13" : "got_other";
-                        bad( "C29:reason:" + ( cause.empty() ? std::string( "no_cause" ) : cause ) + ":" + got, b );
+                        bad( "C29:reason:" + ( cause.empty() ? std::string( "no_cause" ) : cause ) + ":" + got + ( pending_instant_traffic ? ":pending_instant_traffic" : "" ), b );
                     }
                 }
                 else if ( st == st_done_attempt )
@@ -837,13 +856,14 @@ public:
     std::string     why_not;            // why it may not
     bool            reject_seen;
     std::string     history;            // symbols of this connection
+    bool            owed_start_req;     // a LL_START_ENC_REQ for an earlier known-key request may still be queued in the peripheral
     bool            tainted;            // the order in which the link layer looks at the PDUs is not known (instant pending): no verdicts
     bool            last_req_rejected;  // the last LL_ENC_REQ of this connection was for an unknown key
     std::string     trigger;            // what the last LL_START_ENC_RSP that could not start encryption looked like
 
     void reset( const char* why )
     {
-        hs = hs_idle; legit = false; why_not = why; reject_seen = false; trigger = ""; last_req_rejected = false; tainted = false;
+        hs = hs_idle; legit = false; why_not = why; reject_seen = false; trigger = ""; last_req_rejected = false; tainted = false; owed_start_req = false;
     }
 
     void reconnect() { reset( "survived_reconnect" ); history += "| "; if ( history.size() > 300 ) history.erase( 0, 100 ); }
@@ -854,6 +874,8 @@ public:
     void enc_req( bool key_known )
     {
         sym( key_known ? "ENC_REQ(known)" : "ENC_REQ(unknown)" );
+        if ( hs == hs_wait_start_req )
+            owed_start_req = true;
         hs = key_known ? hs_wait_start_req : hs_rejecting;
         reject_seen = false;
         last_req_rejected = !key_known;
@@ -892,8 +914,10 @@ public:
         if ( r[ 0 ] == LL_START_ENC_REQ )
         {
             mon.eval();
-            if ( hs == hs_wait_start_req )
+            if ( hs == hs_wait_start_req && !owed_start_req )
                 hs = hs_start_req_seen;
+            else if ( owed_start_req )
+                owed_start_req = false;
             else if ( !tainted )
                 bad( std::string( "C28:pdu:start_enc_req_without_key:" ) + ( hs == hs_rejecting ? "unknown_key" : "no_request" ),
                      "the peripheral sent LL_START_ENC_REQ without a preceding LL_ENC_REQ for which a key existed" );
